@@ -555,16 +555,15 @@ func (inst *InstGetElementPtr) Operands() []*value.Value {
 func gepInstType(elemType, src types.Type, indices []value.Value) types.Type {
 	var idxs []gep.Index
 	for _, index := range indices {
-		var idx gep.Index
-		switch index := index.(type) {
-		case constant.Constant:
+		idx := gep.Index{HasVal: false}
+		if index, ok := index.(constant.Constant); ok {
 			idx = getIndex(index)
-		default:
-			idx = gep.Index{HasVal: false}
-			// Check if index is of vector type.
-			if indexType, ok := index.Type().(*types.VectorType); ok {
-				idx.VectorLen = indexType.Len
-			}
+		}
+		// Check if index is of vector type (also for constants such as a vector
+		// zeroinitializer, undef or poison, which do not spell their length).
+		if indexType, ok := index.Type().(*types.VectorType); ok {
+			idx.VectorLen = indexType.Len
+			idx.Scalable = indexType.Scalable
 		}
 		idxs = append(idxs, idx)
 	}
@@ -628,9 +627,13 @@ func getIndex(index constant.Constant) gep.Index {
 					}
 				}
 			default:
-				// TODO: remove debug output.
-				panic(fmt.Errorf("support for gep index vector element type %T not yet implemented", elem))
-				//return gep.Index{HasVal: false}
+				// Not an integer literal (e.g. undef, poison, zeroinitializer or
+				// a constant expression): the index vector does not have a
+				// concrete value.
+				return gep.Index{
+					HasVal:    false,
+					VectorLen: uint64(len(index.Elems)),
+				}
 			}
 		}
 		return gep.Index{
@@ -646,9 +649,8 @@ func getIndex(index constant.Constant) gep.Index {
 		// should already have been simplified to a form we can handle.
 		return gep.Index{HasVal: false}
 	default:
-		// TODO: add support for more constant expressions.
-		// TODO: remove debug output.
-		panic(fmt.Errorf("support for gep index type %T not yet implemented", index))
-		//return gep.Index{HasVal: false}
+		// Any other constant (e.g. a constant expression): the index does not
+		// have a concrete value.
+		return gep.Index{HasVal: false}
 	}
 }
